@@ -138,7 +138,17 @@ func runC03(e *env) error {
 		}
 	}
 	e.rep.Note("scenario corpus: %d converters reached the generator, %d outside the modelled fragment", len(cases), nUnsupported)
-	return c03Generated(e, base)
+	if err := c03Generated(e, base); err != nil {
+		return err
+	}
+	// one converter, several methods with DIFFERENT method-level settings over shared nested pairs: whether a pair is
+	// convertible is decided per method (an opt-in of one method does not make the pair convertible for its sibling)
+	e.rep.Rule += "; plus converters whose methods carry different method-level settings (useZeroValueOnPointerInconsistency, skipCopySameType, enum no, wrapErrors) over shared nested pairs, in both generation orders: outcome and executed results vs the model"
+	nb := 1
+	if e.thorough {
+		nb = 2 * e.scale
+	}
+	return runFamilies(e, "C03", "siblings", famSiblings, nb, 36, 3, nil, nil)
 }
 
 var c03ConvFlags = []string{"skipCopySameType", "useZeroValueOnPointerInconsistency", "ignoreMissing", "ignoreUnexported", "matchIgnoreCase", "enum no", "useUnderlyingTypeMethods"}
